@@ -226,6 +226,8 @@ func (app *App) ComponentNames() (names []string) {
 func (app *App) Start(ctx context.Context) (err error) {
 	app.mu.RLock()
 	defer app.mu.RUnlock()
+	verifAppStart(app)
+	defer verifAppStartReturn(app, &err)
 	app.startStat.SpentMsPerComp = make(map[string]int64)
 	var currentComponentStarting string
 	done := make(chan struct{})
@@ -241,6 +243,7 @@ func (app *App) Start(ctx context.Context) (err error) {
 	closeServices := func(idx int) {
 		for i := idx; i >= 0; i-- {
 			if serviceClose, ok := app.components[i].(ComponentRunnable); ok {
+				verifAppCall(app, "close", i)
 				if e := serviceClose.Close(ctx); e != nil {
 					log.Error("close error", zap.String("component", serviceClose.Name()), zap.Error(e))
 				}
@@ -249,7 +252,9 @@ func (app *App) Start(ctx context.Context) (err error) {
 	}
 
 	for i, s := range app.components {
+		verifAppCall(app, "init", i)
 		if err = s.Init(app); err != nil {
+			verifAppFail(app, "init", i)
 			log.Error("can't init service", zap.String("service", s.Name()), zap.Error(err))
 			closeServices(i)
 			return fmt.Errorf("can't init service '%s': %w", s.Name(), err)
@@ -259,7 +264,9 @@ func (app *App) Start(ctx context.Context) (err error) {
 	for i, s := range app.components {
 		if serviceRun, ok := s.(ComponentRunnable); ok {
 			start := time.Now()
+			verifAppCall(app, "run", i)
 			if err = serviceRun.Run(ctx); err != nil {
+				verifAppFail(app, "run", i)
 				log.Error("can't run service", zap.String("service", serviceRun.Name()), zap.Error(err))
 				closeServices(i)
 				return fmt.Errorf("can't run service '%s': %w", serviceRun.Name(), err)
@@ -315,6 +322,7 @@ func (app *App) Close(ctx context.Context) error {
 	log.Debug("close components...")
 	app.mu.RLock()
 	defer app.mu.RUnlock()
+	defer verifAppCloseReturn(app)
 	app.stopStat.SpentMsPerComp = make(map[string]int64)
 	var currentComponentStopping string
 	done := make(chan struct{})
@@ -345,7 +353,9 @@ func (app *App) Close(ctx context.Context) error {
 		if serviceClose, ok := app.components[i].(ComponentRunnable); ok {
 			start := time.Now()
 			currentComponentStopping = app.components[i].Name()
+			verifAppCall(app, "close", i)
 			if e := serviceClose.Close(ctx); e != nil {
+				verifAppCloseErr(app, i)
 				errs = append(errs, fmt.Sprintf("Component '%s' close error: %v", serviceClose.Name(), e))
 			}
 			spent := time.Since(start).Milliseconds()
